@@ -279,6 +279,45 @@ class Interp:
                 raise Unsupported(f"CLASSSEL: statement `{U(s)[:60]}` is outside the supported subset", rule="CLASSSEL")
 
 
+def check_from_droplet_contract(ctx):
+    """The class selection is interpreted with the contract "X.from_droplet(src, **kw) = X(fields of src, overridden by kw)".
+    The contract itself is checked here against DropletBase.from_droplet: the keyword arguments are merged *after* the source's
+    fields (they win); merged the other way round, a supplied width is replaced by the NaN width of the source droplet."""
+    m = ctx.model
+    fi = m.func("droplets.droplets.DropletBase.from_droplet")
+    fv = view(m, fi)
+    src = fi.params[1] if len(fi.params) > 1 else "droplet"
+    kw = fi.kwarg or "kwargs"
+    rets = [r.stmt for r in fv.return_nodes() if r.stmt.value is not None]
+    ok, shown = False, ""
+    if len(rets) == 1 and isinstance(rets[0].value, ast.Call) and U(rets[0].value.func) == "cls" and len(rets[0].value.keywords) == 1 and rets[0].value.keywords[0].arg is None and not rets[0].value.args:
+        d = rets[0].value.keywords[0].value
+        shown = U(d)
+        if isinstance(d, ast.Name):
+            # args = src._args; args.update(kwargs)
+            defs = [s_ for s_ in fv.statements() if isinstance(s_, ast.Assign) and U(s_.targets[0]) == d.id]
+            upd = [c for c in fv.calls() if isinstance(c.func, ast.Attribute) and c.func.attr == "update" and U(c.func.value) == d.id]
+            defs = defs or [s_ for s_ in fv.statements() if isinstance(s_, ast.AnnAssign) and s_.value is not None and U(s_.target) == d.id]
+            base_ok = len(defs) == 1 and U(defs[0].value) in (f"{src}._args", f"dict({src}._args)", f"{src}._args.copy()")
+            ok = base_ok and len(upd) == 1 and [U(a) for a in upd[0].args] == [kw] and fv.dominates(defs[0], upd[0]) and fv.dominates(upd[0], rets[0])
+            if base_ok and not upd:
+                # the same merge as a loop: for k, v in kwargs.items(): args[k] = v
+                for lp_ in [x for x in fv.statements() if isinstance(x, ast.For)]:
+                    if U(lp_.iter) == f"{kw}.items()" and isinstance(lp_.target, ast.Tuple) and len(lp_.target.elts) == 2 and len(lp_.body) == 1 and isinstance(lp_.body[0], ast.Assign):
+                        b_ = lp_.body[0]
+                        if U(b_.targets[0]) == f"{d.id}[{U(lp_.target.elts[0])}]" and U(b_.value) == U(lp_.target.elts[1]) and fv.dominates(defs[0], lp_) and fv.dominates(lp_, rets[0]):
+                            ok = True
+                            upd = [lp_]
+            shown = f"{U(defs[0].value) if defs else '?'} updated by {[U(c) for c in upd]}"
+        elif isinstance(d, ast.Dict) and all(k is None for k in d.keys) and len(d.values) == 2:
+            ok = [U(v) for v in d.values] == [f"{src}._args", kw]
+        elif isinstance(d, ast.Call) and U(d.func) == "dict" and len(d.args) == 1 and len(d.keywords) == 1 and d.keywords[0].arg is None:
+            ok = U(d.args[0]) == f"{src}._args" and U(d.keywords[0].value) == kw
+    ctx.decide(ok, "CLASSSEL", fi.qualname + ":override", (fi, rets[0]) if rets else fi, "from_droplet(src, **kw) = cls(fields of src overridden by kw)",
+               f"from_droplet builds its arguments as `{shown[:80]}`: the keyword arguments do not take precedence over the source droplet's fields, so `X.from_droplet(d, interface_width=w)` keeps d's "
+               "(unset) width — a supplied interface width is lost whenever the candidate is already diffuse")
+
+
 def expected(family, dim, modes, width, refine):
     if modes > 0 and dim not in (2, 3):
         return ("ValueError",)
@@ -524,6 +563,7 @@ def check_locators(ctx: Ctx):
 
 def check(ctx: Ctx):
     m = ctx.model
+    check_from_droplet_contract(ctx)
     ctx.explain(
         "CLASSSEL: exhaustive abstract evaluation of the class-selection fragment of locate_droplets and the promotion of refine_droplet over "
         "all 108 configurations, compared with the table of the property; SLICE: the fragment reads only configuration variables; LAYOUT: "
@@ -537,6 +577,10 @@ def check(ctx: Ctx):
     purity.check_stateless(sub_p, [f"{IMG}.locate_droplets"])
     ctx.findings.extend(f for f in sub_p.findings if f.rule == "STATELESS" and (f.verdict == "violated" or f.site == f"{IMG}.locate_droplets"))
     ctx.functions |= sub_p.functions
+    from ..rules import purity as _pur
+
+    _pur.check_mutable_defaults(ctx, ("droplets.image_analysis", "droplets.emulsions", "droplets.droplets", "droplets.droplet_tracks", "droplets.trackers"))
+    ctx.expect("MUTDEFAULT", 5)
     ctx.expect("STATELESS", 1)
     check_locators(ctx)
     io.check_layouts(ctx)
